@@ -7,6 +7,8 @@ package common
 
 //@ ghost func (r *RollingIndex) wf() bool { return r.lastIndex >= -1 && r.lastIndex < 4611686018427387904 && len(r.items) <= r.lastIndex+1 && r.size >= 2 }
 //@ ghost func (r *RollingIndex) oldest() int { return r.lastIndex - len(r.items) + 1 }
+// AllStr: every item of the window is a string (what the per-participant listings store; their readers assert it).
+//@ ghost func (r *RollingIndex) AllStr() bool { return forall j int :: 0 <= j && j < len(r.items) ==> __dyn(r.items[j], "string") }
 
 //@ func (r *RollingIndex) GetLastWindow() (lastWindow []interface{}, lastIndex int)
 //@   requires r != nil
@@ -36,6 +38,7 @@ package common
 //@ func (r *RollingIndex) Set(item interface{}, index int) error
 //@   ints checked
 //@   safety on
+//@   ensures[typed]   old(r.AllStr()) && __dyn(item, "string") ==> r.AllStr()
 //@   requires r != nil && r.wf() && index >= 0 && index < 4611686018427387904 && r.size < 4611686018427387904
 //@   modifies r.items, r.lastIndex
 //@   ensures[wf]      r.wf()
@@ -54,6 +57,7 @@ package common
 //@ func (r *RollingIndex) roll()
 //@   ints checked
 //@   safety on
+//@   ensures[typed]  old(r.AllStr()) ==> r.AllStr()
 //@   requires r != nil && r.size >= 0 && r.size/2 <= len(r.items)
 //@   modifies r.items
 //@   ensures[suffix] len(r.items) <= len(old(r.items)) &&
@@ -70,6 +74,7 @@ package common
 // keys' indexes untouched.
 //@ ghost func (rim *RollingIndexMap) wf() bool { return rim.mapping != nil && rim.size >= 2 && rim.size < 4611686018427387904 && (forall k uint32 :: __in(k, rim.mapping) ==> rim.mapping[k] != nil && __allocated(rim.mapping[k]) && rim.mapping[k].wf() && rim.mapping[k].size == rim.size) && (forall k uint32, j uint32 :: __in(k, rim.mapping) && __in(j, rim.mapping) && k != j ==> rim.mapping[k] != rim.mapping[j]) }
 
+//@ ghost func (rim *RollingIndexMap) AllStr() bool { return forall k uint32 :: __in(k, rim.mapping) ==> rim.mapping[k].AllStr() }
 // exported views for contracts of other packages
 //@ ghost func (rim *RollingIndexMap) WF() bool { return rim.wf() }
 //@ ghost func (rim *RollingIndexMap) Has(k uint32) bool { return __in(k, rim.mapping) }
@@ -80,6 +85,7 @@ package common
 
 //@ func (rim *RollingIndexMap) AddKey(key uint32) error
 //@   requires rim != nil && rim.wf()
+//@   ensures[typed]   old(rim.AllStr()) ==> rim.AllStr()
 //@   modifies rim.keys, rim.mapping[*]
 //@   ensures[wf]      rim.wf()
 //@   ensures[exists]  old(__in(key, rim.mapping)) ==> IsStore(ret0, KeyAlreadyExists) && __in(key, rim.mapping) && rim.mapping[key] == old(rim.mapping[key])
@@ -112,6 +118,7 @@ package common
 
 //@ func (rim *RollingIndexMap) Set(key uint32, item interface{}, index int) error
 //@   ints checked
+//@   ensures[typed]   old(rim.AllStr()) && __dyn(item, "string") ==> rim.AllStr()
 //@   requires rim != nil && rim.wf() && __in(key, rim.mapping) && index >= 0 && index < 4611686018427387904
 //@   modifies rim.mapping[key].items, rim.mapping[key].lastIndex
 //@   ensures[wf]      rim.wf()
